@@ -119,7 +119,10 @@ def resolve(text):
             if alt.startswith('#'):
                 return dict(mono=0.0, avg=0.0, comp={}, kind='tag')
             alt = alt.split('#')[0]
-        r = _single(alt)
+        try:
+            r = _single(alt)
+        except (ValueError, KeyError):
+            continue  # this alternative cannot be resolved: the FIRST RESOLVABLE one counts
         if r is not None:
             return r
     raise ValueError(f'no mass in {text!r}')
